@@ -162,8 +162,7 @@ func (e *Engine) addPC(c *Term) {
 }
 
 func (e *Engine) check(extra ...*Term) string {
-	conj := append(append([]*Term{}, e.pc...), extra...)
-	r, _ := e.solver.Check(conj, nil)
+	r, _ := e.solver.CheckInc(e.pc, extra, nil)
 	if r == rUnknown {
 		e.res.degraded = true
 	}
@@ -200,6 +199,9 @@ func (e *Engine) branch(cond *Term) bool {
 		return false
 	}
 	e.pos++
+	if forkProfile {
+		e.noteQuery(cond)
+	}
 	rT := e.check(cond)
 	if rT == rUnsat {
 		e.trace = append(e.trace, 1)
@@ -218,6 +220,30 @@ func (e *Engine) branch(cond *Term) bool {
 	e.addPC(cond)
 	e.noteFork(cond)
 	return true
+}
+
+var queryStats = map[string]int{}
+
+func (e *Engine) noteQuery(cond *Term) {
+	where := "?"
+	if e.curInstr != nil {
+		where = fmt.Sprintf("%s @ %s", e.curInstr.Parent(), e.prog.Fset.Position(e.curInstr.Pos()))
+	}
+	pc := make([]uintptr, 6)
+	n := runtime.Callers(3, pc)
+	fr := runtime.CallersFrames(pc[:n])
+	var eng []string
+	for {
+		f, more := fr.Next()
+		eng = append(eng, strings.TrimPrefix(f.Function, "main.(*Engine)."))
+		if !more || len(eng) >= 3 {
+			break
+		}
+	}
+	key := where + " <" + strings.Join(eng, "<") + ">"
+	forkMu.Lock()
+	queryStats[key]++
+	forkMu.Unlock()
 }
 
 var forkStats = map[string]int{}
@@ -305,7 +331,7 @@ func (e *Engine) concretize(t *Term, maxForks int) (uint64, bool) {
 			e.pos++
 			e.trace = append(e.trace, int(v))
 		} else {
-			r, vals := e.solver.Check(e.pc, []*Term{t})
+			r, vals := e.solver.CheckInc(e.pc, nil, []*Term{t})
 			if r != rSat || vals == nil || vals[0] == nil {
 				if r == rUnknown {
 					e.res.degraded = true
@@ -328,7 +354,7 @@ func (e *Engine) uniqueValue(t *Term) (uint64, bool) {
 	if t.isConst() {
 		return t.u64(), true
 	}
-	r, vals := e.solver.Check(e.pc, []*Term{t})
+	r, vals := e.solver.CheckInc(e.pc, nil, []*Term{t})
 	if r != rSat || vals == nil || vals[0] == nil {
 		return 0, false
 	}
@@ -492,7 +518,6 @@ func (e *Engine) reportViolation(label, kind string, extra []*Term) {
 
 // extractModel evaluates all nondets of the path under pc ∧ extra, preferring small blobs.
 func (e *Engine) extractModel(extra []*Term) map[string]interface{} {
-	conj := append(append([]*Term{}, e.pc...), extra...)
 	var terms []*Term
 	type slot struct {
 		nd   *Nondet
@@ -519,9 +544,9 @@ func (e *Engine) extractModel(extra []*Term) map[string]interface{} {
 		s.cnt = len(terms) - s.idx
 		slots = append(slots, s)
 	}
-	r, vals := e.solver.Check(append(append([]*Term{}, conj...), small...), terms)
+	r, vals := e.solver.CheckInc(e.pc, append(append([]*Term{}, extra...), small...), terms)
 	if r != rSat {
-		r, vals = e.solver.Check(conj, terms)
+		r, vals = e.solver.CheckInc(e.pc, extra, terms)
 	}
 	out := map[string]interface{}{}
 	if r != rSat || vals == nil {
